@@ -43,16 +43,21 @@ ESC = {"t": "\t", "r": "\r", "n": "\n", "\\": "\\", "'": "'", '"': '"'}
 def gen_string(rng):
     """(source text between the quotes, denoted value) over the lexer's alphabet and escapes."""
     src, val = "", ""
+    last_backslash = False
     for _ in range(rng.randint(0, 12)):
         r = rng.random()
         if r < 0.3:
             e = rng.choice(list(ESC))
             src += "\\" + e
             val += ESC[e]
+            last_backslash = (e == "\\")
         else:
-            ch = rng.choice("abcXYZ019 _-+*/%$#@!?.,:;()[]{}<>=&|^~`'")
+            # after an escaped backslash the letters of the other escapes are the interesting ones
+            pool = "trn" if last_backslash and rng.random() < 0.6 else "abctrnXYZ019 _-+*/%$#@!?.,:;()[]{}<>=&|^~`'"
+            ch = rng.choice(pool)
             src += ch
             val += ch
+            last_backslash = False
     return src, val
 
 
